@@ -81,33 +81,46 @@ Definition lookup_link (w : world) (f : fid) (o : nat) (n : string) : option lin
     Every step (one component, one link) costs one unit; [Loop] = budget exhausted
     (HDF5: "too many links").  FUEL is far above any legitimate traversal of the
     explored histories and below nothing a soft-link loop could satisfy. *)
-Inductive res := Found (f : fid) (o : nat) | Missing | Loop.
+Inductive res :=
+  | Found (f : fid) (o : nat)
+  | Missing (hard : bool)     (* hard = true: a component before the last one of the traversal could not be
+                                 crossed and no external link was crossed (H5Oexists_by_name fails instead of
+                                 answering "no"); f[path] raises KeyError in either case *)
+  | Loop.
 Definition FUEL : nat := 64.
+Definition is_nil {X} (l : list X) : bool := match l with [] => true | _ => false end.
 
-Fixpoint walk (fuel : nat) (w : world) (f : fid) (o : nat) (p : path) : res :=
+(** x = an external link has been crossed *)
+Fixpoint walk (fuel : nat) (w : world) (x : bool) (f : fid) (o : nat) (p : path) : res :=
   match fuel with
   | O => Loop
   | S k =>
     match p with
     | [] => Found f o
     | n :: rest =>
-      match lookup_link w f o n with
-      | None => Missing
-      | Some (Hard o') => walk k w f o' rest
-      | Some (Soft q) => walk k w f O (q ++ rest)
-      | Some (Ext f' q) => if file_exists w f' then walk k w f' O (q ++ rest) else Missing
+      match obj_at w f o with
+      | Some (Group _ ls) =>
+        match assoc n ls with
+        | None => Missing (negb x && negb (is_nil rest))
+        | Some (Hard o') => walk k w x f o' rest
+        | Some (Soft q) => walk k w x f O (q ++ rest)
+        | Some (Ext f' q) => if file_exists w f' then walk k w true f' O (q ++ rest) else Missing false
+        end
+      | _ => Missing (negb x)
       end
     end
   end.
-Definition resolve (w : world) (f : fid) (p : path) : res := walk FUEL w f O p.
+Definition resolve (w : world) (f : fid) (p : path) : res := walk FUEL w false f O p.
 
 (** open the object a single link denotes (h5py  group[name]  for one component) *)
 Definition follow (w : world) (f : fid) (l : link) : res :=
   match l with
   | Hard o => Found f o
-  | Soft q => walk FUEL w f O q
-  | Ext f' q => if file_exists w f' then walk FUEL w f' O q else Missing
+  | Soft q => walk FUEL w false f O q
+  | Ext f' q => if file_exists w f' then walk FUEL w true f' O q else Missing false
   end.
+Definition is_ext (l : link) : bool := match l with Ext _ _ => true | _ => false end.
+Definition is_sym (l : link) : bool := match l with Hard _ => false | _ => true end.
 
 Fixpoint split_last (p : path) : option (path * string) :=
   match p with
@@ -118,26 +131,41 @@ Fixpoint split_last (p : path) : option (path * string) :=
               end
   end.
 
-(** h5py  path in f  (h5g._path_valid): every link of the path exists, all but the last
-    must resolve to a group; the last link may dangle *)
-Definition contains (w : world) (f : fid) (p : path) : bool :=
-  match split_last p with
-  | None => true
-  | Some (par, n) =>
-      match resolve w f par with
-      | Found f1 g => match lookup_link w f1 g n with Some _ => true | None => false end
-      | _ => false
+Inductive outcome := Ok | EKey | EOS | ERuntime | EValue | ERecursion | EAttr.
+Inductive tri := TTrue | TFalse | TRaise (e : outcome).
+Definition is_group (w : world) (f : fid) (o : nat) : bool :=
+  match obj_at w f o with Some (Group _ _) => true | _ => false end.
+
+(** h5py  path in f  (h5g._path_valid): component by component; a link of that name must exist;
+    all but the last must denote a group (H5Oexists_by_name, then open); the last link may dangle *)
+Fixpoint contains_gen (fol : world -> fid -> link -> res) (w : world) (f : fid) (o : nat) (p : path) : tri :=
+  match p with
+  | [] => TTrue
+  | n :: rest =>
+      match lookup_link w f o n with
+      | None => TFalse
+      | Some l =>
+          match rest with
+          | [] => TTrue
+          | _ => match fol w f l with
+                 | Found f1 o1 => if is_group w f1 o1 then contains_gen fol w f1 o1 rest else TFalse
+                 | Missing hard => if hard then TRaise ERuntime else TFalse
+                 | Loop => TRaise ERuntime
+                 end
+          end
       end
   end.
-
-Inductive outcome := Ok | EKey | EOS | ERuntime | EValue | ERecursion | EAttr.
+Definition contains (w : world) (f : fid) (p : path) : tri := contains_gen follow w f O p.
+Definition contains_b (w : world) (f : fid) (p : path) : bool :=
+  match contains w f p with TTrue => true | _ => false end.
 
 (** ---- link creation with HDF5's create-intermediate-groups property list.
     [ensure] walks the parent components from object (f,o), creating the missing groups. *)
 Fixpoint ensure_gen (fol : world -> fid -> link -> res)
-         (w : world) (f : fid) (o : nat) (comps : path) : option (world * fid * nat) :=
+         (w : world) (xs xe : bool) (f : fid) (o : nat) (comps : path)
+  : option (world * (bool * bool) * fid * nat) :=
   match comps with
-  | [] => Some (w, f, o)
+  | [] => Some (w, (xs, xe), f, o)
   | c :: rest =>
       match obj_at w f o with
       | Some (Group a ls) =>
@@ -145,10 +173,10 @@ Fixpoint ensure_gen (fol : world -> fid -> link -> res)
           | None =>
               let '(w1, g) := alloc w f (Group [] []) in
               let w2 := set_obj w1 f o (Group a (ins_sorted c (Hard g) ls)) in
-              ensure_gen fol w2 f g rest
+              ensure_gen fol w2 xs xe f g rest
           | Some l =>
               match fol w f l with
-              | Found f' o' => ensure_gen fol w f' o' rest
+              | Found f' o' => ensure_gen fol w (xs || is_sym l) (xe || is_ext l) f' o' rest
               | _ => None
               end
           end
@@ -158,7 +186,15 @@ Fixpoint ensure_gen (fol : world -> fid -> link -> res)
 
 (* (the fixpoints of this file take the fuel-bounded functions they call as parameters, so that
    the termination check never has to unfold a [walk FUEL]) *)
-Definition ensure := ensure_gen follow.
+Definition ensure (w : world) (f : fid) (o : nat) (comps : path) := ensure_gen follow w false false f o comps.
+
+(** the exception class when the final name is already bound: HDF5 follows the existing link,
+    a soft-link loop there surfaces as RuntimeError instead of "name already exists" *)
+Definition exists_err (w : world) (f : fid) (g : nat) (n : string) (eexist : outcome) : outcome :=
+  match lookup_link w f g n with
+  | Some l => match follow w f l with Loop => ERuntime | _ => eexist end
+  | None => eexist
+  end.
 
 (** bind name n in group (f,g) to link l (no overwrite) *)
 Definition bind (w : world) (f : fid) (g : nat) (n : string) (l : link) : option world :=
@@ -180,12 +216,14 @@ Definition add_link (w : world) (f : fid) (p : path) (l : link) (lf : fid)
   | Some (par, n) =>
       match ensure w f O par with
       | None => (eother, w)
-      | Some (w1, f1, g) =>
+      | Some (w1, (_, xe), f1, g) =>
           match l with
           | Hard _ => if fid_eqb f1 lf then
-                        match bind w1 f1 g n l with Some w2 => (Ok, w2) | None => (eexist, w) end
+                        match bind w1 f1 g n l with Some w2 => (Ok, w2) | None => (exists_err w1 f1 g n eexist, w) end
                       else (EOS, w1)          (* interfile hard link: the intermediate groups stay *)
-          | _ => match bind w1 f1 g n l with Some w2 => (Ok, w2) | None => (eexist, w) end
+          | Soft _ => match bind w1 f1 g n l with Some w2 => (Ok, w2) | None => (exists_err w1 f1 g n eexist, w) end
+          | Ext _ _ => if xe then (ERuntime, w)   (* the file behind the crossed link is open read-only *)
+                       else match bind w1 f1 g n l with Some w2 => (Ok, w2) | None => (exists_err w1 f1 g n eexist, w) end
           end
       end
   end.
@@ -205,7 +243,8 @@ Definition del_link (w : world) (f : fid) (p : path) : outcome * world :=
               end
           | _ => (EKey, w)
           end
-      | _ => (EKey, w)
+      | Loop => (ERuntime, w)
+      | Missing _ => (EKey, w)
       end
   end.
 
@@ -232,17 +271,23 @@ Definition h5copy (w : world) (sf : fid) (so : nat) (df : fid) (dg : nat) (dp : 
       | Some src0 =>
           match ensure w df dg par with
           | None => (ERuntime, w)
-          | Some (w1, f1, g) =>
-              if negb (fid_eqb f1 df) then (ERuntime, w) else
-              match get_store w1 f1, lookup_link w1 f1 g n with
-              | Some st1, None =>
-                  let k := length st1 in
-                  let w2 := set_store w1 f1 (Some (st1 ++ map (shift_obj k) src0)) in
-                  match bind w2 f1 g n (Hard (so + k)) with
-                  | Some w3 => (Ok, w3)
-                  | None => (ERuntime, w)
+          | Some (w1, (xs, _), f1, g) =>
+              if xs || negb (fid_eqb f1 df) then (ERuntime, w) else   (* H5Ocopy refuses a destination behind a soft or external link *)
+              match get_store w1 f1 with
+              | Some st1 =>
+                  match nth_error st1 g with
+                  | Some (Group a ls) =>
+                      match assoc n ls with
+                      | None =>
+                          let k := List.length st1 in
+                          (Ok, set_store w1 f1
+                                 (Some (upd g (Group a (ins_sorted n (Hard (so + k)) ls)) st1
+                                        ++ map (shift_obj k) src0)))
+                      | Some _ => (ERuntime, w)
+                      end
+                  | _ => (ERuntime, w)
                   end
-              | _, _ => (ERuntime, w)
+              | None => (ERuntime, w)
               end
           end
       end
@@ -261,7 +306,7 @@ Definition set_attrs (w : world) (f : fid) (o : nat) (b : list (string * aval)) 
 
 (** ---- cooler.fileops._copy (fileops.py:284-330) *)
 Definition res_err (r : res) : outcome :=
-  match r with Found _ _ => Ok | Missing => EKey | Loop => ERuntime end.
+  match r with Found _ _ => Ok | Missing _ => EKey | Loop => ERuntime end.
 
 Fixpoint copy_children_gen (fol : world -> fid -> link -> res)
          (cpy : world -> fid -> nat -> fid -> nat -> path -> outcome * world)
@@ -349,19 +394,21 @@ Definition is_cooler_obj (x : obj) : bool :=
   | Some v => aval_eqb v (AStr MAGIC)
   | None => false
   end.
-Inductive tri := TTrue | TFalse | TRaise (e : outcome).
-
 (** fileops.is_cooler after the D5 repair:  not is_hdf5 -> False;  grouppath not in f -> False;
     _is_cooler(f[grouppath]) *)
 Definition is_cooler (w : world) (f : fid) (p : path) : tri :=
   if negb (file_exists w f) then TFalse
-  else if negb (contains w f p) then TFalse
-  else match resolve w f p with
-       | Found f1 o => match obj_at w f1 o with
-                       | Some x => if is_cooler_obj x then TTrue else TFalse
-                       | None => TFalse
-                       end
-       | r => TRaise (res_err r)
+  else match contains w f p with
+       | TFalse => TFalse
+       | TRaise e => TRaise e
+       | TTrue =>
+           match resolve w f p with
+           | Found f1 o => match obj_at w f1 o with
+                           | Some x => if is_cooler_obj x then TTrue else TFalse
+                           | None => TFalse
+                           end
+           | r => TRaise (res_err r)
+           end
        end.
 
 (** ---- list_coolers: custom visititems over TreeNode.get_children().
@@ -481,9 +528,9 @@ Definition create_group (w : world) (f : fid) (p : path) : outcome * world :=
   | Some (par, n) =>
       match ensure w f O par with
       | None => (EValue, w)
-      | Some (w1, f1, g) =>
+      | Some (w1, _, f1, g) =>
           match lookup_link w1 f1 g n with
-          | Some _ => (EValue, w)
+          | Some _ => (exists_err w1 f1 g n EValue, w)
           | None =>
               let '(w2, o) := alloc w1 f1 (Group [] []) in
               match bind w2 f1 g n (Hard o) with Some w3 => (Ok, w3) | None => (EValue, w) end
@@ -498,7 +545,7 @@ Fixpoint del_if_present_gen (cont : world -> fid -> path -> bool) (del : world -
   | n :: r => let w1 := if cont w f [n] then snd (del w f [n]) else w in
               del_if_present_gen cont del w1 f r
   end.
-Definition del_if_present := del_if_present_gen contains del_link.
+Definition del_if_present := del_if_present_gen contains_b del_link.
 
 (** create(cool_uri, ..., mode): h5py.File(file, mode); at "/" the four table groups are
     unlinked if present, elsewhere the target group is created (an existing one is unlinked
@@ -510,10 +557,11 @@ Definition create (w : world) (f : fid) (p : path) (mode_w : bool) (spec : cspec
     | [] => (Ok, del_if_present w0 f ["chroms"; "bins"; "pixels"; "indexes"]%string)
     | _ => match create_group w0 f p with
            | (Ok, w1) => (Ok, w1)
-           | _ => match del_link w0 f p with
-                  | (Ok, w1) => create_group w1 f p
-                  | (e, w1) => (e, w1)
-                  end
+           | (EValue, _) => match del_link w0 f p with          (* except ValueError: del f[path]; create again *)
+                            | (Ok, w1) => create_group w1 f p
+                            | (e, w1) => (e, w1)
+                            end
+           | (e, _) => (e, w0)
            end
     end in
   match prep with
